@@ -13,25 +13,33 @@ CONSTANTS EmitOn
 EntSizesQ == {5, 53, 70, 140}
 EntSizes3 == {5, 53, 140}
 EntSizesD == {5, 53, 140}
+EntSizes2 == {5, 140}
 (* nil metadata (2-word record, no Data: the chain value stays 0 through the head) and 1 KB segments:
    head = 7 words, 54 ends on the boundary (7+54+3), 120 passes SegWords = 128 *)
 EntSizesN == {4, 54, 120}
+EntSizes2N == {54, 120}
+EntSizes1N == {120}
 AppSizesQ == {5, 64}
 
-LastIdxOf(s) == IF s.ents = <<>> THEN 0 ELSE log[s.ents[Len(s.ents)]].idx
+LastIdxOf(s) == IF s.ents = <<>> THEN 0
+                ELSE LET e == s.ents[Len(s.ents)] IN IF e < 0 THEN log[-e].commit ELSE log[e].idx
 Pred(s) == [ok |-> s.ok, first |-> s.first, rep |-> s.rep, nacc |-> Len(s.acc), nents |-> Len(s.ents),
             lastidx |-> LastIdxOf(s), hs |-> HsVal(s.hs), off |-> s.o, err |-> s.err]
 
 Scen1 == [seg |-> SegWords, meta |-> MetaWords, ops |-> ops', lost |-> crash1'.lost, soff |-> crash1'.soff,
           tail |-> crash1'.tail, app |-> <<>>, lost2 |-> {}, p1 |-> Pred(rec1'), p2 |-> Pred(rec1'), two |-> FALSE,
-          dur |-> durable]
+          dur |-> durable, cutcrash |-> (phase = "cuthead"), close2 |-> FALSE, cor |-> cor', nonprefix |-> FALSE]
+Scen3 == [seg |-> SegWords, meta |-> MetaWords, ops |-> ops', lost |-> {}, soff |-> 0,
+          tail |-> TailSeg, app |-> <<>>, lost2 |-> {}, p1 |-> Pred(rec1'), p2 |-> Pred(rec1'), two |-> FALSE,
+          dur |-> durable, cutcrash |-> FALSE, close2 |-> FALSE, cor |-> cor', nonprefix |-> (rec1'.ok /\ ~CorruptOK(rec1'))]
 Scen2 == [seg |-> SegWords, meta |-> MetaWords, ops |-> ops', lost |-> crash1'.lost, soff |-> crash1'.soff,
           tail |-> crash1'.tail, app |-> app', lost2 |-> crash2'.lost, p1 |-> Pred(rec1'), p2 |-> Pred(rec2'), two |-> TRUE,
-          dur |-> durable]
+          dur |-> durable, cutcrash |-> (stale # <<>>), close2 |-> (phase = "cut2"), cor |-> cor', nonprefix |-> FALSE]
 
 Emit ==
   IF ~EmitOn THEN TRUE
-  ELSE IF phase \in {"write", "syncing"} /\ phase' \in {"opened", "failed"} THEN PrintT(ToJson(Scen1))
-  ELSE IF phase = "syncing2" /\ phase' \in {"done", "failed"} THEN PrintT(ToJson(Scen2))
+  ELSE IF phase' \in {"cdone", "crejected"} /\ phase = "write" THEN PrintT(ToJson(Scen3))
+  ELSE IF phase \in {"write", "syncing", "cuthead"} /\ phase' \in {"opened", "failed"} THEN PrintT(ToJson(Scen1))
+  ELSE IF phase \in {"syncing2", "cut2"} /\ phase' \in {"done", "failed"} THEN PrintT(ToJson(Scen2))
   ELSE TRUE
 =============================================================================
